@@ -834,6 +834,24 @@ fn exec_polyline(t: &mut Toks, op: &str, ctx: &mut Ctx) -> String {
         sm.draw(&mut r1).unwrap();
         ctx.expect(r1.rec.map == mt && sm.bounding_box() == bbt, "C07:translate-mut-differs:thick-polyline", || "translate_mut and translate differ".into());
     }
+    // C07 / C02: the translated polyline on BOUNDED targets that cut it on either side: inside the target it is the
+    // shifted picture (a polyline moved into view by its `translate` field is visible although its raw vertices lie
+    // outside the target: seeded change C07-r3-1 skipped it by testing the UNtranslated stroke box against the target)
+    if !mt.is_empty() && bb.size.width <= 4096 && bb.size.height <= 4096 {
+        let (w3, h3) = ((bb.size.width / 3) as i32 + 1, (bb.size.height / 3) as i32 + 1);
+        for tl in [bb.top_left + Point::new(w3, h3), bb.top_left - Point::new(w3, h3), bb.top_left] {
+            let b = Rectangle::new(tl, bb.size);
+            let mut rb = R2::<BinaryColor>::new(b);
+            styled.draw(&mut rb).unwrap();
+            let wantb: PMap = mt.iter().filter(|((y, x), _)| b.contains(Point::new(*x, *y))).map(|(k, v)| (*k, *v)).collect();
+            if wantb.len() != mt.len() {
+                ctx.count("polyline:cut-by-a-bounded-target");
+            }
+            ctx.expect(rb.rec.map == wantb, "C07:translate-field:thick-polyline:bounded-target", || {
+                format!("box {}: {} px drawn, {} expected", fmt_rect(&b), rb.rec.map.len(), wantb.len())
+            });
+        }
+    }
     // C07, moved vertices
     let moved: Vec<Point> = vs.iter().map(|v| *v + tr).collect();
     let (mv, bbv) = poly_picture(&moved, Point::zero(), w);
